@@ -356,7 +356,8 @@ def replay_case(case, acc):
 
 def plan(tier, seed):
     thorough = tier == "thorough"
-    zs = ["UTC", None, "date", 19800] + [z for z in seeds.witness_zones(seed, 2) if z != "UTC"]
+    # fixed offsets: +05:30, and two that are not whole minutes (+05:30:32, -03:30:41)
+    zs = ["UTC", None, "date", 19800, 19832, -12641] + [z for z in seeds.witness_zones(seed, 2) if z != "UTC"]
     shards = []
     for z in zs:
         st = starts_for(z, seed, thorough)
